@@ -77,6 +77,7 @@ type material struct {
 	data     []byte
 	bounds   []int // record boundaries b0=0 < b1 < ... (ends of parts)
 	genbank  bool  // every part is a GenBank record
+	emptyDBLink string // an entry of a DBLINK field was left without a value (which form), and nothing else was edited
 	t4       bool  // only length-consistency edits were applied
 	declared int   // declared LOCUS length of the first record after edits (t4)
 	actual   int   // residues in its ORIGIN block after edits (t4)
@@ -136,7 +137,12 @@ func (sc *c07Scenario) build() *material {
 			if !t4Ops[e.Op] {
 				m.t4 = false
 			}
+			before := len(lines)
+			joined := strings.Join(lines, "")
 			lines = applyEdit(lines, e)
+			if e.Op == "empty-dblink" && len(sc.Edits) == 1 && before == len(lines) && joined != strings.Join(lines, "") {
+				m.emptyDBLink = []string{"nothing-after-colon", "one-blank-after-colon", "blanks-after-colon"}[e.N%3]
+			}
 		}
 		m.data = []byte(strings.Join(lines, ""))
 		m.bounds = nil
@@ -268,6 +274,27 @@ func applyEdit(lines []string, e textEdit) []string {
 			}
 		}
 		return out
+	case "empty-dblink":
+		// one entry of the DBLINK field loses its value
+		out := append([]string(nil), lines...)
+		var entries []int
+		for i := 0; i < n; i++ {
+			if strings.HasPrefix(out[i], "DBLINK") {
+				entries = append(entries, i)
+				for j := i + 1; j < n && strings.HasPrefix(out[j], "            ") && strings.Contains(out[j], ":"); j++ {
+					entries = append(entries, j)
+				}
+				break
+			}
+		}
+		if len(entries) == 0 {
+			return lines
+		}
+		k := entries[e.Line%len(entries)]
+		if c := strings.Index(out[k][12:], ":"); c >= 0 {
+			out[k] = out[k][:12+c+1] + []string{"", " ", "   "}[e.N%3] + "\n"
+		}
+		return out
 	case "set-length":
 		out := append([]string(nil), lines...)
 		f := strings.Fields(out[0])
@@ -362,6 +389,9 @@ func genEdit(r *core.RNG, nlines, nbytes int) textEdit {
 }
 
 func genT4Edit(r *core.RNG, length int) textEdit {
+	if r.Chance(1, 6) {
+		return textEdit{Op: "empty-dblink", Line: r.Intn(8), N: r.Intn(3)}
+	}
 	switch r.Intn(5) {
 	case 0:
 		return textEdit{Op: "set-length", N: []int{0, 1, length - 1, length + 1, length / 2, length * 2, length + 60, length - 60, 10, 60}[r.Intn(10)]}
@@ -597,6 +627,13 @@ func (x *c07Run) runStream(sc *c07Scenario, m *material) {
 			}
 		} else if r.Err == nil && len(r.Seqs) == 0 {
 			x.violate(sc, "silent-loss", "inconsistent-record", fmt.Sprintf("LOCUS declares %d, ORIGIN holds %d: no record and no error", m.declared, m.actual))
+		}
+	}
+	// the statement names it: an empty DBLINK value is reported as an error
+	if m.emptyDBLink != "" && !cut {
+		res.Probes["empty_dblink_value_cases"]++
+		if r.Err == nil {
+			x.violate(sc, "empty-dblink-accepted", m.emptyDBLink, fmt.Sprintf("a DBLINK entry without a value (%s) was accepted: %d record(s), no error", m.emptyDBLink, len(r.Seqs)))
 		}
 	}
 	// T4 for every accepted GenBank record, whatever was done to the stream:
